@@ -151,6 +151,39 @@ fn doc_text(d: Doc) -> &'static str {
 }
 
 pub fn eval_config(base: &Path, c: &Cfg, order: &[Doc]) -> (u64, Vec<(String, String, String)>) {
+    eval_config_reload(base, c, order, None)
+}
+
+/// What happens to app/gleam.toml after the documents are open (the watcher reports the change).
+#[derive(Clone, Copy, Debug, PartialEq, Eq)]
+pub enum Reload {
+    /// saved with the same content
+    Same,
+    /// dep1 dropped from [dependencies] (its directory stays under build/packages)
+    DropDep1,
+    /// saved in a state that does not parse, then saved again as it was
+    BrokenThenRepaired,
+    /// saved in a state that does not parse
+    Broken,
+}
+
+fn app_manifest(c: &Cfg) -> String {
+    let mut deps = String::new();
+    if c.dep1 {
+        deps += "dep1 = \"~> 1.0\"\n";
+    }
+    if c.app_dep2 {
+        deps += "dep2 = \"~> 1.0\"\n";
+    }
+    if c.lib {
+        deps += "lib = { path = \"../lib\" }\n";
+    }
+    format!("name = \"app\"\nversion = \"1.0.0\"\n\n[dependencies]\n{deps}")
+}
+
+/// `c` describes the tree as built; with a reload the expectations are those of the manifest's
+/// final content. `base` must not be shared with other jobs when the manifest is rewritten.
+pub fn eval_config_reload(base: &Path, c: &Cfg, order: &[Doc], reload: Option<Reload>) -> (u64, Vec<(String, String, String)>) {
     let mut out = vec![];
     let mut n = 0u64;
     let mut srv = InProc::new();
@@ -161,6 +194,57 @@ pub fn eval_config(base: &Path, c: &Cfg, order: &[Doc]) -> (u64, Vec<(String, St
             return (n, out);
         }
     }
+    let built = *c;
+    let mut after = *c;
+    if let Some(r) = reload {
+        let toml = base.join("app/gleam.toml");
+        let uri = uri_of(&toml);
+        let mut notify = |content: String, srv: &mut InProc, out: &mut Vec<(String, String, String)>| {
+            write(&toml, &content);
+            if let Err(m) = srv.notify("workspace/didChangeWatchedFiles", json!({"changes": [{"uri": uri, "type": 2}]})) {
+                out.push(("loader-panic".into(), format!("manifest reload {r:?}"), format!("watched-file event for app/gleam.toml panicked: {}", crate::core::panic_class(&m))));
+            }
+        };
+        match r {
+            Reload::Same => notify(app_manifest(&built), &mut srv, &mut out),
+            Reload::DropDep1 => {
+                after.dep1 = false;
+                notify(app_manifest(&after), &mut srv, &mut out);
+            }
+            Reload::BrokenThenRepaired => {
+                notify("name = \"app\nversion = [\n".to_string(), &mut srv, &mut out);
+                notify(app_manifest(&built), &mut srv, &mut out);
+            }
+            Reload::Broken => notify("name = \"app\nversion = [\n".to_string(), &mut srv, &mut out),
+        }
+        if !out.is_empty() {
+            return (n, out);
+        }
+        // whatever the manifest says now: a package under build/packages that was a listed
+        // dependency when its document was opened stays external (a package the root never
+        // listed is the stale-dependency situation of the base layer's known finding)
+        if order.contains(&Doc::Dep1Mod) && built.dep1 {
+            let duri = uri_of(&doc_path(base, Doc::Dep1Mod));
+            let p = pos_of(DEP1MOD, "fn d1", 3);
+            n += 1;
+            if let Ok(Ok(v)) = srv.request("textDocument/prepareRename", json!({"textDocument": {"uri": duri}, "position": {"line": p.0, "character": p.1}})) {
+                if !v.is_null() {
+                    out.push(("external-editable".into(), format!("prepareRename in build/packages|after manifest reload {r:?}"), format!("after the manifest was saved ({r:?}), prepareRename accepts a function declared in a file under build/packages")));
+                }
+            }
+            n += 1;
+            if let Ok(Ok(v)) = srv.request("textDocument/rename", json!({"textDocument": {"uri": duri}, "position": {"line": p.0, "character": p.1}, "newName": "renamed"})) {
+                if !v.is_null() {
+                    out.push(("external-editable".into(), format!("rename in build/packages|after manifest reload {r:?}"), format!("after the manifest was saved ({r:?}), rename edits a function declared in a file under build/packages: {v}")));
+                }
+            }
+        }
+        if r == Reload::Broken {
+            // nothing else is specified for a manifest that does not parse
+            return (n, out);
+        }
+    }
+    let c = &after;
     // paths are compared after resolving `..` components (a path dependency is reached as app/../lib)
     let rel = |u: &str| {
         let Some(p) = u.strip_prefix("file://") else { return u.to_string() };
@@ -229,7 +313,7 @@ pub fn eval_config(base: &Path, c: &Cfg, order: &[Doc]) -> (u64, Vec<(String, St
             out.push(("local-not-editable".into(), "prepareRename|util.u".into(), "prepareRename refuses a function of the root package".into()));
         }
     }
-    if order.contains(&Doc::Dep1Mod) {
+    if order.contains(&Doc::Dep1Mod) && (reload.is_none() || c.dep1) {
         check_calls(&mut srv, Doc::Dep1Mod, &["dep2mod.d2"], &mut out, &mut n);
     }
     if order.contains(&Doc::Inner) && c.nested {
@@ -455,6 +539,51 @@ pub fn run(tier: Tier) -> i32 {
     }
     l.bound = format!("64 project trees (registry dep, path dep, transitive dep, direct dep on the transitive one, nested package root, module in src/ vs test/; plus nested module directories, equal module names in package and dependency, a free-standing file) x all open orders of <= {} distinct documents out of 5; real directories, real loader via didOpen on the real router", tier.pick(3, 4));
     rep.layer(l);
+    // manifest reloads: the same trees, documents opened, then app/gleam.toml saved again
+    {
+        let kinds = [Reload::Same, Reload::DropDep1, Reload::BrokenThenRepaired, Reload::Broken];
+        let orders: [&[Doc]; 3] = [&[Doc::Main, Doc::Dep1Mod], &[Doc::Dep1Mod, Doc::Main], &[Doc::Main]];
+        let mut rjobs: Vec<(usize, Cfg, Reload, usize)> = vec![];
+        for (i, c) in cfgs.iter().enumerate() {
+            for r in kinds {
+                if r == Reload::DropDep1 && !c.dep1 {
+                    continue;
+                }
+                for oi in 0..orders.len() {
+                    rjobs.push((i, *c, r, oi));
+                }
+            }
+        }
+        let res: Vec<(u64, Vec<Violation>)> = rjobs
+            .par_iter()
+            .enumerate()
+            .map(|(j, (i, c, r, oi))| {
+                let base = root.join(format!("r{j}"));
+                build_tree(&base, c);
+                let (n, fails) = eval_config_reload(&base, c, orders[*oi], Some(*r));
+                let _ = std::fs::remove_dir_all(&base);
+                let v = fails
+                    .into_iter()
+                    .map(|(class, key, detail)| Violation { class, key: format!("manifest-reload {r:?}|{key}"), witness: json!({"cfg": format!("{c:?}"), "cfg_index": i, "order": orders[*oi].iter().map(|d| format!("{d:?}")).collect::<Vec<_>>(), "reload": format!("{r:?}")}), detail: format!("[{c:?}, opened {:?}, then app/gleam.toml saved: {r:?}] {detail}", orders[*oi]) })
+                    .collect();
+                (n, v)
+            })
+            .collect();
+        let mut l = Layer { name: "manifest-reloads".into(), states: rjobs.len() as u64, exhaustive: true, ..Default::default() };
+        let mut seen = BTreeSet::new();
+        for (n, v) in res {
+            l.executions += 1;
+            l.transitions += n;
+            for x in v {
+                classes.insert(x.class.clone());
+                if seen.insert(x.key.clone()) {
+                    rep.violation(x);
+                }
+            }
+        }
+        l.bound = "the 64 project trees x 3 open orders of {main, a module under build/packages} x app/gleam.toml saved afterwards (watched-file event): with the same content / with dep1 dropped from [dependencies] / broken then repaired / broken: the layout model's expectations for the manifest's final content, and files under build/packages stay external (prepareRename and rename refused) whatever the manifest says".into();
+        rep.layer(l);
+    }
     naming_layer(&mut rep, &root);
     rep.distinct_nontrivial = jobs.len() as u64 + name_cfgs().len() as u64;
     rep.distinct_outcomes = classes.len() as u64 + 1;
